@@ -1182,6 +1182,12 @@ def make_track(tv, bars, via):
         t.instrument.tuning = tv.obj
     elif via == "track":
         t.set_tuning(tv.obj)
+    elif via == "arg_over_track":
+        # the track carries a tuning of its own; the caller asks for the tab in another one (passed explicitly)
+        other = ("BASS GUITAR", "STANDARD 4-STRING TUNING")
+        if tv.tkey is not None and tuple(tv.tkey) == other:
+            other = ("UKULELE", "STANDARD C6 TUNING FOR SOPRANO, CONCERT AND TENOR.")
+        t.set_tuning(REG_BY_KEY[other])
     for meter, entries in bars:
         b = build_bar(meter, entries)
         if b is None:
@@ -1202,7 +1208,7 @@ def run_tab_track(case):
     adm = all(bar_admissible(tv, entries, bw, barstart_of(tv)) for _, entries in bars)
     must, may, exp = expected_of_bars(tv, bars)
     kw = {} if width is None else {"maxwidth": width}
-    if via == "arg":
+    if via in ("arg", "arg_over_track"):
         kw["tuning"] = tv.obj
     site = "from_Track(%d bars, maxwidth=%r, tuning via %s %s)" % (len(bars), width, via, tkey)
     text = render(S, site, tablature.from_Track, [t], kw, must, may, adm)
@@ -1239,7 +1245,7 @@ def gen_tab_track(shard):
         vias = ["default"]
         maxbars = 3 if tier == "quick" else 4
     else:
-        vias = ["arg", "track", "instr"]
+        vias = ["arg", "track", "instr", "arg_over_track"]
     widths = [None] + WIDTHS + ([] if tier == "quick" else [50, 61, 121, 200])
     for n in range(0, maxbars + 1):
         for combo in itertools.product(range(len(pool)), repeat=n):
